@@ -39,8 +39,8 @@ Theorem C08_table : forall c, In c all_cells -> cell_ok H c = true.
 Proof. apply table_forall. vm_compute. reflexivity. Qed.
 Print Assumptions C08_table.
 
-(* what the table contains: 167 Must cells, 249 May cells, 4652 cells that must raise, 3252 unconstrained comparisons;
-   616 cells return a value *)
+(* what the table contains: 167 Must cells, 251 May cells, 4650 cells that must raise, 3252 unconstrained comparisons;
+   617 cells return a value *)
 Example C08_table_census :
   map (fun p => length (filter p all_cells))
       [ (fun c => match spec_of H c with Must _ => true | _ => false end);
@@ -48,7 +48,7 @@ Example C08_table_census :
         (fun c => match spec_of H c with MustRaise => true | _ => false end);
         (fun c => match spec_of H c with Free => true | _ => false end);
         (fun c => match model H c with Value _ _ => true | _ => false end) ]
-  = [167; 249; 4652; 3252; 616].
+  = [167; 251; 4650; 3252; 617].
 Proof. vm_compute. reflexivity. Qed.
 
 (* "in particular never None, an identity, or an object holding foreign elements": on the WHOLE table (comparison
